@@ -118,3 +118,25 @@ pub fn vary_mtime(path: &std::path::Path) {
         let _ = f.set_modified(t);
     }
 }
+
+/// Appender names for drivers whose cases speak of appenders by index.  An appender's name is an
+/// opaque string compared exactly; the style changes with every call of `next_name_style` (one per
+/// case): plain `a<i>`, names that differ only by surrounding white space, names that differ only by
+/// case / look-alike letters.
+static NAME_STYLE: std::sync::atomic::AtomicUsize = std::sync::atomic::AtomicUsize::new(0);
+
+pub fn next_name_style() {
+    NAME_STYLE.fetch_add(1, std::sync::atomic::Ordering::SeqCst);
+}
+
+pub fn aname(i: usize) -> String {
+    const WS: [&str; 10] =
+        ["sink", "sink ", " sink", "\u{a0}sink", "sink\t", "\u{3000}sink", "sink\u{2003}", " sink ", "sink\u{a0}", "\tsink"];
+    const LOOK: [&str; 10] =
+        ["log", "Log", "LOG", "l\u{43e}g", "lo\u{261}", "log\u{200b}", "lo\u{301}g", "l0g", "lоg", "log."];
+    match NAME_STYLE.load(std::sync::atomic::Ordering::SeqCst) % 3 {
+        1 if i < WS.len() => WS[i].to_string(),
+        2 if i < LOOK.len() => LOOK[i].to_string(),
+        _ => format!("a{}", i),
+    }
+}
